@@ -20,7 +20,7 @@ import (
 // the appending forms the table ends with the values initial .. initial + k without a gap or a repeat.
 // Not judged (documented): a common table or a derived table WITHOUT FOR UPDATE that reads the table before the
 // statement's target is loaded (proposals/C09-notes.md, S22).
-const c09RmwRule = "family rmw: single statements that read the table they change, the first access being the exclusive one {UPDATE with a subquery on t in SET, in WHERE; WITH x AS (SELECT ... FROM t FOR UPDATE) UPDATE t / INSERT INTO t; thorough: UPDATE t FROM t JOIN (derived table on t), INSERT ... VALUES (subquery), WITH ... FOR UPDATE DELETE + INSERT-free forms} against a concurrent increment, all interleavings; " +
+const c09RmwRule = "family rmw: single statements that read the table they change, the first access being the exclusive one {UPDATE with a subquery on t in SET, in WHERE; WITH x AS (SELECT ... FROM t FOR UPDATE) UPDATE t / INSERT INTO t; thorough: subquery on t in WHERE, UPDATE t FROM t JOIN (derived table on t), WITH ... FOR UPDATE before a joined UPDATE and before REPLACE} against a concurrent increment, all interleavings; " +
 	"oracle: both committed changes survive (counter = initial + committed increments; appended values form initial..initial+k)"
 
 func init() { c09FamRegister("rmw", c09RmwRule, c09RmwList) }
